@@ -765,4 +765,25 @@ pub mod memtable {
 	pub fn node_sizes() -> (usize, usize, usize) {
 		crate::memtable::verif_node_sizes()
 	}
+
+	/// A batch of sets with the given (key, value) lengths against an empty memtable of
+	/// `capacity` bytes: the admission check (`can_hold`), the certain-fit arena size
+	/// (`arena_size_for`) and whether the real insertion succeeded.
+	pub fn arena_probe(capacity: usize, sizes: &[(usize, usize)]) -> Result<(bool, usize, bool), String> {
+		use crate::batch::Batch;
+		use crate::memtable::MemTable;
+		use crate::InternalKeyKind;
+		let mut batch = Batch::new(1);
+		for (i, (klen, vlen)) in sizes.iter().enumerate() {
+			let mut key = format!("{i:08}").into_bytes();
+			key.resize((*klen).max(8), b'k');
+			batch
+				.add_record(InternalKeyKind::Set, key, Some(vec![b'v'; *vlen]), 0)
+				.map_err(|e| e.to_string())?;
+		}
+		let can = MemTable::can_hold(&batch, capacity).map_err(|e| e.to_string())?;
+		let size = MemTable::arena_size_for(&batch).map_err(|e| e.to_string())?;
+		let added = MemTable::new(capacity).add(&batch).is_ok();
+		Ok((can, size, added))
+	}
 }
